@@ -240,7 +240,8 @@ class Sut:
             P = self.nav(ri, op['p'])
             if P.__class__.__name__ == 'ElementProxy':
                 raise NavError('no parent at that path')
-            f = core.Field(version=self.meta[ri]['version'], validation_level=self.level)
+            kw = {'datatype': op['datatype']} if op.get('datatype') else {}
+            f = core.Field(version=self.meta[ri]['version'], validation_level=self.level, **kw)
             f.value = op['text']
             P.add(f)
             self.unknown = getattr(self, 'unknown', [])
